@@ -160,14 +160,21 @@ def density_bounds(msgs, bsz, nblocks, windowed):
 def run_case(seed, i, tier):
     rng = core.rng_for(seed, PROP, i)
     bsz, container, style, n0 = gen_family(rng)
+    dense = (i % 160 == 47)      # (about 4 million scheduling steps a case: one per 160)
+    if dense:
+        # the opposite regime: thousands of short messages in each (large) block, a file of a few dozen such blocks
+        bsz, style, n0 = 0x40000, "short", 4
+        container = rng.choice(("plain", "plain", "gz", "lz4"))
     fmt = gen_fmt(seed, i)
     if tier != "quick" and rng.random() < 0.3:
         n0 *= 5
     pol = rng.choice(("starve:0", "starve:0", "starve:2", "random", "rr", "first:2", "pct"))
     second = rng.random() < 0.3
-    windowed = container == "plain" and rng.random() < 0.3
+    windowed = container == "plain" and rng.random() < 0.3 and not dense
     wfrac = rng.choice((0.1, 0.5, 0.9))
     cr = CaseResult()
+    if dense:
+        cr.probes["thousands_of_messages_per_block"] += 1
     marks = {}
     planseed = rng.getrandbits(62)
     hashseed = rng.getrandbits(32)
